@@ -197,6 +197,11 @@ func runStress(cs StressCase) StressResult {
 	}
 	classes := map[int]bool{}
 	var completed, waitersSeen int64
+	// where every worker is: 1 inside Get, 2 holding an event (harness code),
+	// 3 inside Back, 9 finished. A worker that is slow for reasons outside the
+	// pool (allocation, GC assist, scheduling on a loaded machine) is in 2 or 3
+	// (Back allocates), a reader that waits for capacity is in 1.
+	wstate := make([]int32, cs.Workers)
 	defer func() { res.WaitersSeen = atomic.LoadInt64(&waitersSeen) }()
 	var wg sync.WaitGroup
 	for w := 0; w < cs.Workers; w++ {
@@ -213,7 +218,9 @@ func runStress(cs StressCase) StressResult {
 					}
 				}
 				c0 := now()
+				atomic.StoreInt32(&wstate[w], 1)
 				e := p.Get(size)
+				atomic.StoreInt32(&wstate[w], 2)
 				c1 := now()
 				mu.Lock()
 				if outstanding[e] {
@@ -249,13 +256,16 @@ func runStress(cs StressCase) StressResult {
 				delete(outstanding, e)
 				mu.Unlock()
 				b0 := now()
+				atomic.StoreInt32(&wstate[w], 3)
 				p.Back(e)
+				atomic.StoreInt32(&wstate[w], 2)
 				b1 := now()
 				mu.Lock()
 				ops = append(ops, porcupine.Operation{ClientId: w, Input: semIn{false}, Call: b0, Output: 0, Return: b1})
 				mu.Unlock()
 				atomic.AddInt64(&completed, 1)
 			}
+			atomic.StoreInt32(&wstate[w], 9)
 		}(w)
 	}
 	finished := make(chan struct{})
@@ -279,17 +289,43 @@ loop:
 			mu.Lock()
 			out := len(outstanding)
 			mu.Unlock()
-			if out < cs.Capacity && p.Waiters() > 0 {
+			inGet, elsewhere := 0, 0
+			for i := range wstate {
+				switch atomic.LoadInt32(&wstate[i]) {
+				case 1:
+					inGet++
+				case 2, 3:
+					elsewhere++
+				}
+			}
+			switch {
+			case elsewhere == 0 && inGet > 0 && out < cs.Capacity:
+				// every unfinished worker sits inside Get, nobody holds an event
+				// or is returning one: nothing but a wake-up can be missing
 				res.Viol = append(res.Viol, Viol{"C04", "pool-waiter-parked-with-free-capacity:" + cs.Kind,
-					fmt.Sprintf("%s pool: no get/back completed during 25 pool heartbeat ticks, %d of %d events outstanding, %d readers parked", cs.Kind, out, cs.Capacity, p.Waiters()), cs})
-			} else {
-				res.Inconcl = "stress stalled without a parked waiter"
+					fmt.Sprintf("%s pool: no get/back completed during %d pool heartbeat ticks, %d of %d events outstanding, all %d unfinished workers are inside get (%d parked on the condition variable)", cs.Kind, tick-lastTick, out, cs.Capacity, inGet, p.Waiters()), cs})
+			case tick-lastTick >= 400:
+				// a worker inside Back or between the calls for 400 ticks: Back
+				// never returns (or the machine is not running this process)
+				res.Viol = append(res.Viol, Viol{"C04", "pool-back-never-returns:" + cs.Kind,
+					fmt.Sprintf("%s pool: no get/back completed during %d pool heartbeat ticks, %d workers inside get, %d inside back or between the calls", cs.Kind, tick-lastTick, inGet, elsewhere), cs})
+			default:
+				// workers are busy outside Get (Back allocates; a loaded machine
+				// stretches that): keep watching
+				time.Sleep(time.Millisecond)
+				continue
 			}
 			res.Ops = int(n)
 			res.WindowHits = atomic.LoadInt64(&windowHits)
 			return res // leaves goroutines behind; the child exits after its cases
 		}
 		if time.Since(wall) > 30*time.Second && tick == lastTick {
+			// make sure it is the heartbeat that stands still, not this whole process
+			time.Sleep(2 * time.Second)
+			if verifhook.Hits(tickName(cs.Kind)) != tick || atomic.LoadInt64(&completed) != n {
+				wall = time.Now()
+				continue
+			}
 			mu.Lock()
 			out := len(outstanding)
 			mu.Unlock()
